@@ -193,6 +193,18 @@ def main(argv):
     if not a.no_bounded and (cfg.get("bounded", True) or failed or undecided):
         bounded = run_bounded(prop, tier, seed, outdir)
 
+    # guard on the verifier itself (thorough tier): the assumed numpy/CasADi models and the
+    # interpreter against the real libraries on every engine primitive
+    crosscheck = None
+    if tier == "thorough" and prop in ("C15", "C03", "C01"):
+        try:
+            p = subprocess.run([PY, os.path.join(HERE, "tools", "crosscheck.py"), "--samples", "8", "--seed", str(seed)], capture_output=True, text=True, timeout=1800, cwd=HERE)
+            crosscheck = {"exit": p.returncode, "summary": (p.stdout.strip().splitlines() or [""])[-1], "disagreements": [l for l in p.stdout.splitlines() if l.startswith("DISAGREE")][:10]}
+        except subprocess.TimeoutExpired:
+            crosscheck = {"exit": None, "summary": "timed out"}
+        if crosscheck.get("exit") not in (0, None):
+            errors.append(("tools/crosscheck.py", "assumed library contract refuted: " + "; ".join(crosscheck["disagreements"])[:1500]))
+
     status = 0
     lines = []
     for f, rec, res in known_hits:
@@ -250,6 +262,8 @@ def main(argv):
         "explanation": cfg.get("explanation", ""),
         "repo_fingerprint": source_fingerprint(),
     }
+    if crosscheck is not None:
+        coverage["model_vs_real_crosscheck"] = crosscheck
     if bounded is not None:
         coverage["bounded_stand_in"] = {k: bounded.get(k) for k in ("evaluations", "distinct_nontrivial", "rule", "bound", "skipped", "error") if k in bounded}
         coverage["bounded_stand_in"]["violations"] = len(bounded.get("violations", []))
